@@ -29,7 +29,22 @@ package drummer
 //          dragonboat, but SyncPropose reports ErrCanceled (applied, reported
 //          failed); a lookup / session request fails.
 //   mode 2 "expired": deadline in the past.  dragonboat refuses the request
-//          before submitting it (failed, not applied).
+//          before submitting it (ErrInvalidDeadline; failed, not applied).
+//   mode 3 "timed out": Done() closed, Err()=DeadlineExceeded, no own deadline
+//          (the operation's own WithTimeout deadline is valid when the request
+//          is issued, but the wait for the result ends at once the way an
+//          exhausted deadline ends it).  dragonboat reports ErrTimeout - the
+//          class dragonboat.IsTempError calls temporary (ErrTimeout,
+//          ErrSystemBusy, ErrShardNotReady, ErrShardClosed, ErrAborted ...).
+//          No wall clock involved.  A proposal IS submitted and applied (the
+//          client gave up, the proposal committed); a lookup / session
+//          request fails.
+//   mode 4 "too small": the deadline is 1 ms ahead when the operation derives
+//          its context: less than one RTT tick.  dragonboat refuses the request
+//          before submitting it (ErrTimeoutTooSmall, or ErrInvalidDeadline if
+//          the millisecond has passed; failed, not applied).
+//   (ErrDeadlineNotSet cannot be provoked: every DB operation of the code under
+//   test derives its own WithTimeout context.)
 // Spec "REAL" uses a genuine context.WithCancel context cancelled before the
 // turn (what e.stop() produces); no operation log is available then.
 //
@@ -44,7 +59,7 @@ package drummer
 // Input grammar (one token line each):
 //   CASE <name> <nservers> <id0> ... <idn-1>
 //   INIT <id> <tick>                 (optional) write the record directly first
-//   T <server> <tick> <faults>       faults: "-" | "REAL" | k=v,... with k in r1 r2 s p c, v in 1 2,
+//   T <server> <tick> <faults>       faults: "-" | "REAL" | k=v,... with k in r1 r2 s p c, v in 1 2 3 4,
 //                                    or k in wp wr, v = <id>:<tick>
 //   END
 // Output:
@@ -92,6 +107,7 @@ type vctx struct {
 	ops    []string
 	ierr   error
 	inside bool
+	dl     time.Time
 }
 
 // interfere performs the foreign write planned for this point of the turn.
@@ -160,6 +176,7 @@ func (c *vctx) Deadline() (time.Time, bool) {
 		}
 		c.ops = append(c.ops, kind)
 		c.cur = c.plan[key]
+		c.dl = time.Now().Add(time.Millisecond)
 		ikey := ""
 		if kind == "p" {
 			ikey = "wp"
@@ -177,13 +194,16 @@ func (c *vctx) Deadline() (time.Time, bool) {
 	if c.cur == 2 {
 		return time.Now().Add(-time.Hour), true
 	}
+	if c.cur == 4 {
+		return c.dl, true
+	}
 	return time.Time{}, false
 }
 
 func (c *vctx) Done() <-chan struct{} {
 	c.mu.Lock()
 	defer c.mu.Unlock()
-	if c.cur != 0 {
+	if c.cur != 0 && c.cur != 4 {
 		return vClosed
 	}
 	return nil
@@ -195,7 +215,7 @@ func (c *vctx) Err() error {
 	switch c.cur {
 	case 1:
 		return context.Canceled
-	case 2:
+	case 2, 3:
 		return context.DeadlineExceeded
 	}
 	return nil
